@@ -109,7 +109,7 @@ def seg_ceil(ctx, L, rule="R-SEG-CEIL"):
                     ctx.violated(rule, f, inst + " (size)", "announced message_size is %s, not len(data)" % pretty(size), e.node)
                     continue
                 try:
-                    ok, detail = ceil_div_check(v, nsym, L.seg)
+                    ok, detail = ceil_div_check(v, nsym, L.seg, [(g_, p_) for g_, p_ in r.guards(i) if contains(g_, nsym)])
                 except Unk as u:
                     ctx.unknown(rule, "cannot evaluate %s in the quotient/remainder domain (%s) at %s" % (pretty(v), u, loc(f, e.node)))
                     continue
@@ -136,7 +136,7 @@ def seg_ceil(ctx, L, rule="R-SEG-CEIL"):
                     ctx.unknown(rule, "cannot bind %s arguments at %s" % (name, loc(f, e.node)))
                     continue
                 try:
-                    ok, detail = ceil_div_check(pk, lensym(("p", "data")), L.seg)
+                    ok, detail = ceil_div_check(pk, lensym(("p", "data")), L.seg, [(g_, p_) for g_, p_ in r.guards(i) if contains(g_, lensym(("p", "data")))])
                 except Unk as u:
                     ctx.unknown(rule, "cannot evaluate announced count %s (%s)" % (pretty(pk), u))
                     continue
